@@ -192,10 +192,47 @@ for _op in OPS:
                replay=_replay_switch_status_only(_op) if _op.startswith('route') else _replay_switch(_op))(_ob_switch(_op))
 
 
+def _replay_toggle(label, m):
+    """native: the same two pools and the same toggle message; the property is evaluated on the statuses the real contract reports afterwards"""
+    from .c02 import _mints
+    ch = m['_choices']
+    who = ['creator', 'mallory'][ch.get('sender', 0)]
+    pool_id = ['p1', 'nope'][ch.get('pool', 0)]
+    vals = [[None, True, False][ch.get(k, 0)] for k in ('sw', 'dep', 'wd')]
+    fees = fees_of_model(m)
+    init1, init2 = (True, False, True), (False, True, True)
+    steps = [{'op': 'set_pool', 'pool': pool_json('p1', ['uA', 'uB'], [6, 6], [m['x1'], m['y1']], 'constant_product', fees, status=init1)},
+             {'op': 'set_pool', 'pool': pool_json('p2', ['uB', 'uC'], [6, 6], [m['x2'], m['y2']], 'constant_product', fees, status=init2)},
+             {'op': 'execute', 'contract': 'pool_manager', 'sender': who, 'funds': [],
+              'msg': {'update_config': {'feature_toggle': {'pool_identifier': pool_id, 'swaps_enabled': vals[0], 'deposits_enabled': vals[1], 'withdrawals_enabled': vals[2]}}}},
+             {'op': 'query', 'contract': 'pool_manager', 'msg': {'pools': {'pool_identifier': 'p1'}}},
+             {'op': 'query', 'contract': 'pool_manager', 'msg': {'pools': {'pool_identifier': 'p2'}}}]
+    sc = {'setup': {}, 'steps': steps}
+
+    def judge(out):
+        r = out['results']
+        tx = r[2]
+
+        def status(q):
+            st = q['ok']['pools'][0]['pool_info']['status']
+            return (st['swaps_enabled'], st['deposits_enabled'], st['withdrawals_enabled'])
+        s1, s2 = status(r[3]), status(r[4])
+        allowed = who == 'creator' and pool_id == 'p1'
+        if 'ok' in tx and not allowed:
+            return True, 'toggle by %s on %s accepted' % (who, pool_id)
+        if 'ok' not in tx and allowed:
+            return True, 'owner toggle of an existing pool refused: %s' % json.dumps(tx)[:200]
+        exp1 = tuple(v if v is not None else o for v, o in zip(vals, init1)) if 'ok' in tx else init1
+        if s1 != exp1 or s2 != init2:
+            return True, 'toggle %s of p1 (switches were %s): p1 now %s (expected %s), p2 now %s (expected %s)' % (vals, init1, s1, exp1, s2, init2)
+        return False, 'native run agrees'
+    return sc, judge
+
+
 @obligation('C17', 'S2.toggle_writes_only_the_named_pool', entries=['execute', 'update_config', 'assert_owner'], kind='S',
             statement='UpdateConfig{feature_toggle} by the owner changes only the status of the named pool to the requested values; other pools, reserves and config are untouched; '
                       'a non-owner or an unknown pool is rejected',
-            bounds='two pools, each switch None/Some(true)/Some(false), sender owner or stranger', covers=['ok', 'rejected'])
+            bounds='two pools, each switch None/Some(true)/Some(false), sender owner or stranger', covers=['ok', 'rejected'], replay=_replay_toggle)
 def s2(I):
     b, res, amt, amt_b = world(I, (True, False, True), (False, True, True))
     who = ['creator', 'mallory'][I.choose(2, 'sender')]
